@@ -72,7 +72,7 @@ func (f *Free) Exec(op Op) ExecOut {
 	f.w.live = append(f.w.live, r.ret)
 	out.Ret = len(f.w.live)
 	out.IsNew = true
-	if op.K != "New" && op.K != "NewMasked" && op.K != "Slice" {
+	if op.K != "New" && op.K != "NewMasked" && op.K != "Slice" && op.K != "ShallowClone" {
 		// a library allocation: one cell per element of the result
 		if len(f.w.backs) == nb {
 			f.w.backs = append(f.w.backs, reflect.Value{})
